@@ -121,6 +121,26 @@ func runC07(c *h.Ctx) {
 		}
 	}
 	c.SetExhaustive(fmt.Sprintf("all chains of <= %d steps over %d step forms x all documents of <= %d nodes x lax/strict", maxSteps, len(c07Steps), maxNodes))
+	// literal bounds at the edges of the subscript type, fractions and negative
+	// bounds: a bound beyond the array is a structural mismatch (absorbed in lax
+	// mode, reported in strict mode, skipped below .**) - only a bound outside
+	// int32 is a range error
+	{
+		k := 0
+		for _, b := range []string{"2147483647", "2147483646", "-2147483648", "-2147483647", "-1", "-0.5", "0.9", "1.9999999999", "100", "2147483647.9", "-0.9999999999", "last + 2147483640"} {
+			for _, form := range []string{"$[%s]", "$[0 to %s]", "$[%s to last]", "$.a[%s]", "$.**[0 to %s]", "$.**{1}[%s]", "$ ? (exists(@[%s]))", "$ ? (!(exists(@[0 to %s])))", "$[0, %s]", "$[%s, 0]", "$[*] ? ((@[%s] == 1) is unknown)"} {
+				for _, d := range []string{`[1,2,3]`, `[]`, `{"a":[1,2]}`, `[[1],[2,3]]`, `1`, `{"a":1}`, `[{"a":[5]},[6,7]]`} {
+					k++
+					if !c.Mine(k) {
+						continue
+					}
+					ptxt := fmt.Sprintf(form, b)
+					checkStructural(c, ptxt, d, true)
+					checkStructural(c, "strict "+ptxt, d, false)
+				}
+			}
+		}
+	}
 	// random larger accessor/filter paths
 	r := c.Rand("c07")
 	g := &gen.G{R: r, C: gen.DefaultCfg()}
